@@ -415,6 +415,9 @@ func runC19(c *ev.ChildEnv, res *ev.Result) {
 	if c.Batch == 1%c.Batches {
 		c19DuringStart(c, res)
 	}
+	if c.Batch == 2%c.Batches {
+		c19Slow(c, res)
+	}
 	rounds := tierN(c.Tier, 12, 200) / c.Batches
 	for i := 0; i < rounds; i++ {
 		tag := fmt.Sprintf("c19b%dr%d", c.Batch, i)
@@ -518,4 +521,87 @@ func c19DuringStart(c *ev.ChildEnv, res *ev.Result) {
 		res.Violate("C19/update-from-configure", fmt.Sprintf("update issued from the Configure handler: start err=%v, update err=%v, callback invocations=%d, argument equal=%v, failed list equal=%v", cerr, uerr, got.Load(), updatesEqual(arg, sent), updatesEqual(failed, wantFailed)), nil)
 	}
 	res.Seen("update-from-configure")
+}
+
+// c19Slow: the callback's result reaches the plugin unchanged also when the callback (or the wait for the
+// runtime to become free) takes longer than NRI's request timeout for plugins.
+func c19Slow(c *ev.ChildEnv, res *ev.Result) {
+	adaptation.SetPluginRequestTimeout(400 * time.Millisecond)
+	defer adaptation.SetPluginRequestTimeout(60 * time.Second)
+	dir := c.Dir + "/slow"
+	mkdirAll(dir)
+	rt, err := rig.NewRuntime(dir)
+	if err != nil {
+		return
+	}
+	var calls atomic.Int32
+	rt.UpdateFn = func(_ context.Context, u []*api.ContainerUpdate) ([]*api.ContainerUpdate, error) {
+		calls.Add(1)
+		if len(u) > 0 && strings.Contains(u[0].ContainerId, "slowcb") {
+			time.Sleep(900 * time.Millisecond)
+		}
+		return c19Expect(u)
+	}
+	if rt.Start() != nil {
+		return
+	}
+	defer rt.Stop()
+	var ps []*rig.Plugin
+	for i := 0; i < 3; i++ {
+		h := rig.Handlers{Event: func(_ context.Context, e api.Event, pod *api.PodSandbox, _ *api.Container) error {
+			if strings.Contains(pod.GetId(), "busy") && i < 2 {
+				time.Sleep(300 * time.Millisecond) // within the timeout each, beyond it together
+			}
+			return nil
+		}}
+		p := rig.NewPlugin(fmt.Sprintf("s%d", i), fmt.Sprintf("%02d", 10+i), 0, h)
+		if p.Connect(rt.Sock) != nil || !p.WaitSynced(20*time.Second) {
+			res.Note("c19Slow: plugin %d did not come up", i)
+			return
+		}
+		ps = append(ps, p)
+		defer p.StopStub()
+	}
+	updater := ps[2]
+	check := func(name, id string, during func()) {
+		res.Eval()
+		what := map[string]any{"scenario": name, "request_timeout_ms": 400}
+		sent := []*api.ContainerUpdate{{ContainerId: id + ".c1"}, {ContainerId: id + ".c4"}}
+		sent[0].SetLinuxCPUShares(5)
+		before := calls.Load()
+		var failed []*api.ContainerUpdate
+		var uerr error
+		d := make(chan struct{})
+		go func() { defer close(d); failed, uerr = updater.Stub.UpdateContainers(cloneUpdates(sent)) }()
+		if during != nil {
+			during()
+		}
+		if rig.Await(d, 5*time.Second, 30*time.Second) == "hang" {
+			res.Violate("C19/hang", name+": UpdateContainers never returned; goroutines:\n"+nriStacks(), what)
+			return
+		}
+		want, _ := c19Expect(sent)
+		if uerr != nil || !updatesEqual(failed, want) || calls.Load()-before != 1 {
+			res.Violate("C19/slow-result-lost", fmt.Sprintf("%s: the callback's result did not reach the plugin unchanged: err=%v failed=%v (want %v), callback invocations=%d", name, uerr, failed, want, calls.Load()-before), what)
+			return
+		}
+		select {
+		case <-updater.Closed:
+			res.Violate("C19/slow-plugin-dropped", name+": the plugin that issued the update was disconnected", what)
+			return
+		default:
+		}
+		res.Seen("slow|" + name)
+	}
+	check("callback slower than the request timeout", "slowcb1", nil)
+	gate := make(chan struct{})
+	go func() {
+		b := rt.A.BlockPluginSync()
+		close(gate)
+		c06Issue(rt.A, api.Event_RUN_POD_SANDBOX, "busy-1")
+		b.Unblock()
+	}()
+	<-gate
+	time.Sleep(30 * time.Millisecond) // the request is being relayed to the first two plugins
+	check("runtime busy longer than the request timeout", "busywait1", nil)
 }
